@@ -804,12 +804,14 @@ def _kind_of(path):
             return 'out'
     if CTX.inpath and ap == CTX.inpath:
         return 'in'
-    if '/ddsmt-' in ap:
+    if '/ddsmt-' in ap and os.path.basename(ap).startswith('ddsmt-tmp-'):
         return 'cand'
     return None
 
 
 def sim_open(path, mode='r', *a, **k):
+    if CTX.rec is None or CTX.S is None or CTX.S.me() is None:
+        return builtins.open(path, mode, *a, **k)
     kind = _kind_of(path)
     writing = any(c in mode for c in 'wax+')
     if kind is None or not writing:
